@@ -198,6 +198,9 @@ func VerifFindSock(n *Net, ip net.IP, port int) *UDPConn {
 	return c
 }
 
+// VerifPending is the number of datagrams waiting in the socket's read queue.
+func VerifPending(c *UDPConn) int { return len(c.readCh) }
+
 // VerifNewTBF builds a TokenBucketFilter in front of a sink.
 func VerifNewTBF(rate, burst, queueBytes int) (*VerifFilter, error) {
 	s := &VerifSink{snaps: map[int]string{}}
